@@ -47,6 +47,8 @@ type Job struct {
 	From     int      `json:"from"` // explore: children of the root at points [From,To)
 	To       int      `json:"to"`
 	Bound    int      `json:"bound"`
+	MapBound int      `json:"mapbound"`           // bound on map-order deviations (vmap.Keys)
+	NoSched  bool     `json:"nosched"`            // no branching on scheduling points (map deviations on the default schedule only)
 	Deadline int64    `json:"deadline,omitempty"` // unix seconds; 0 = none
 	Schedule []int    `json:"schedule,omitempty"` // replay: choices
 	Runs     int      `json:"runs,omitempty"`     // free: repetitions
@@ -74,6 +76,7 @@ type Reply struct {
 	RootSig   string `json:"rootsig,omitempty"`
 	RootN     []int  `json:"rootn,omitempty"`   // options per choice point of the default schedule
 	RootCur   []bool `json:"rootcur,omitempty"` // running goroutine enabled at that point
+	RootMap   int    `json:"rootmap,omitempty"` // map-order choice points among them
 	RootSteps int64  `json:"rootsteps,omitempty"`
 	Gor       int    `json:"goroutines,omitempty"`
 	CPUms     int64  `json:"cpums,omitempty"`
@@ -120,6 +123,7 @@ func obsText(dir string, a, b *fe.Result, ra, rb *vsync.Result, noWasm bool) str
 		sb.WriteString(vsync.CountsText(vr.Counts))
 	}
 	half("il", a, ra)
+	fmt.Fprintf(&sb, secMark+"il-order\n%s\n", strings.Join(a.ILOrder, " "))
 	for _, m := range a.ILOrder {
 		fmt.Fprintf(&sb, secMark+"il %s\n", m)
 		sb.WriteString(a.IL[m])
@@ -180,7 +184,7 @@ func (w *workerState) execute(prefix []vsync.Choice) (*execOut, error) {
 func traceSig(t []vsync.Choice) string {
 	h := sha256.New()
 	for _, c := range t {
-		fmt.Fprintf(h, "%d/%v/%08x;", c.N, c.Cur, c.Sig)
+		fmt.Fprintf(h, "%d/%v/%v/%08x;", c.N, c.Cur, c.Map, c.Sig)
 	}
 	return hex.EncodeToString(h.Sum(nil))[:16]
 }
@@ -214,7 +218,7 @@ func (w *workerState) load(p *Project) error {
 func cost(t []vsync.Choice) int {
 	n := 0
 	for _, c := range t {
-		n += c.Cost()
+		n += c.Cost() + c.MapCost()
 	}
 	return n
 }
@@ -274,28 +278,31 @@ func (a *agg) finish() *Reply {
 }
 
 // children pushes the alternatives of trace t at points [from,to) (not below plen) whose
-// preemption cost stays within bound, deepest first so that the DFS pops shallow ones last.
-func children(stack [][]vsync.Choice, t []vsync.Choice, plen, from, to, bound int) [][]vsync.Choice {
+// preemption cost stays within bound and whose map-order deviations stay within mapBound.
+func children(stack [][]vsync.Choice, t []vsync.Choice, plen, from, to, bound, mapBound int, noSched bool) [][]vsync.Choice {
 	if from < plen {
 		from = plen
 	}
 	if to > len(t) {
 		to = len(t)
 	}
-	c := 0
+	c, mc := 0, 0
 	for i := 0; i < from && i < len(t); i++ {
 		c += t[i].Cost()
+		mc += t[i].MapCost()
 	}
 	for i := from; i < to; i++ {
 		for alt := 1; alt < t[i].N; alt++ {
-			if alt == t[i].C {
+			if alt == t[i].C || (noSched && !t[i].Map) {
 				continue
 			}
-			nc := c
-			if t[i].Cur {
+			nc, nmc := c, mc
+			if t[i].Map {
+				nmc++
+			} else if t[i].Cur {
 				nc++
 			}
-			if nc > bound {
+			if nc > bound || nmc > mapBound {
 				continue
 			}
 			p := make([]vsync.Choice, i+1)
@@ -305,6 +312,7 @@ func children(stack [][]vsync.Choice, t []vsync.Choice, plen, from, to, bound in
 			stack = append(stack, p)
 		}
 		c += t[i].Cost()
+		mc += t[i].MapCost()
 	}
 	return stack
 }
@@ -313,7 +321,7 @@ func children(stack [][]vsync.Choice, t []vsync.Choice, plen, from, to, bound in
 func (w *workerState) explore(j *Job) (*Reply, error) {
 	a := &agg{seen: map[string]*Seen{}}
 	a.rep.Complete = true
-	stack := children(nil, w.root.Trace, 0, j.From, j.To, j.Bound)
+	stack := children(nil, w.root.Trace, 0, j.From, j.To, j.Bound, j.MapBound, j.NoSched)
 	n := 0
 	for len(stack) > 0 {
 		p := stack[len(stack)-1]
@@ -328,7 +336,7 @@ func (w *workerState) explore(j *Job) (*Reply, error) {
 			return nil, fmt.Errorf("project %s schedule %v: %v", w.proj.ID, choices(p), err)
 		}
 		a.add(w, e, len(p))
-		stack = children(stack, e.res.Trace, len(p), 0, 1<<30, j.Bound)
+		stack = children(stack, e.res.Trace, len(p), 0, 1<<30, j.Bound, j.MapBound, j.NoSched)
 	}
 	// shard epilogue (R3): the default schedule must still give the first observation
 	e, err := w.execute(nil)
@@ -371,6 +379,9 @@ func (w *workerState) handle(j *Job) (rep *Reply) {
 		r.Gor = w.root.Goroutines
 		for _, c := range w.root.Trace {
 			r.RootN = append(r.RootN, c.N)
+			if c.Map {
+				r.RootMap++
+			}
 			r.RootCur = append(r.RootCur, c.Cur)
 		}
 		return r
